@@ -687,16 +687,16 @@ let () =
         (match C19TreeModel.tree_of s with
          | None -> Printf.printf "OK %s notree\n" id
          | Some ts ->
-           let m = match C01Model.encode_seq false ts with
+           let m = match C19BoxModel.encode_seq false ts with
              | Base.Ok bs ->
-               let sz = L.fold_left (fun a t -> a + int_of_n (C01Model.size_box t)) 0 ts in
+               let sz = L.fold_left (fun a t -> a + int_of_n (C19BoxModel.size_box t)) 0 ts in
                Printf.sprintf "%d|%s" sz (hex_of_str bs)
              | _ -> "ENCERR" in
            if m <> obs then Printf.printf "MISMATCH %s model=%s\n" id (if S.length m > 3000 then S.sub m 0 3000 else m)
            else if not (C19TreeModel.roundtrip_ok s) then Printf.printf "MISMATCH %s model=roundtrip_ok-false\n" id
            else
              (* are the hypotheses of theorem C19_roundtrip satisfied by this case? (statistics for the evidence) *)
-             let hyp = C19TreeModel.args_okb s && L.for_all C01Model.enc_fits ts in
+             let hyp = C19TreeModel.args_okb s && L.for_all C19BoxModel.enc_fits ts in
              Printf.printf "OK %s %s\n" id (if hyp then "hyp" else "nohyp"))
       | ["GEN"; seed; cnt] -> G.run (int_of_string seed) (int_of_string cnt)
       | ["RA"; id; r; obs] ->
